@@ -21,7 +21,7 @@ MODELLED_FUNCS = {'sugar/core/meta.py': ['Attr.__init__', 'Attr.__getitem__', 'A
                   'sugar/core/seq.py': ['BioSeq.__add__', 'BioSeq.__iadd__', 'BioSeq.reverse', 'BioSeq.copy', 'BioSeq.fts', 'BioSeq.id',
                                         'BioSeq.complement', 'BioSeq.rc', 'BioBasket.__init__', 'BioBasket.complement', 'BioBasket.rc', 'BioBasket.__setitem__', 'BioBasket.fts', 'BioBasket.reverse', 'BioBasket.copy', 'BioBasket.sort', 'BioBasket.filter',
                                         '_BioSeqStr.lower', '_BioSeqStr.upper', '_BioBasketStr.__getattr__']}
-NO_SHRINK_KEYS = ['mapkind', 'obj', 'how', 'mk', 'sub', 'data', 'arg', 'a', 'b', 'operand']
+NO_SHRINK_KEYS = ['mapkind', 'obj', 'how', 'mk', 'sub', 'data', 'arg', 'a', 'b', 'operand', 'method', 'n']
 
 # ----------------------------------------------------------------------------- literals
 
@@ -659,7 +659,8 @@ def mk_feature(lit):
 def mk_seq(lit):
     from sugar import BioSeq
     s = BioSeq(lit['data'], meta=fresh(lit['meta']))
-    s.fts = [mk_feature(f) for f in lit['fts']]
+    if lit['fts']:            # a sequence without features keeps NO 'fts' item (like one read from FASTA): BioSeq.fts creates it lazily
+        s.fts = [mk_feature(f) for f in lit['fts']]
     return s
 
 
@@ -803,6 +804,10 @@ def obj_do(regs, op):
                 raise _OOD(f)
             a.fts = b
             r = None
+        elif f == 'getfts':
+            if not isinstance(a, BioSeq):
+                raise _OOD(f)
+            r = a.fts                      # the getter: lazily stores a FRESH FeatureList in a sequence that has none
         elif f == 'basketsetfts':
             if not (isinstance(a, BioBasket) and isinstance(b, FeatureList)):
                 raise _OOD(f)
@@ -959,7 +964,7 @@ def o_targets(o, limit=80):
 OBJ_PURE = [['copy'], ['copy'], ['slice'], ['slice'], ['addlit'], ['filterlen'], ['basketfts'], ['get'], ['get']]
 OBJ_INPL = ['reverse', 'lower', 'upper', 'complement', 'rc', 'iaddlit', 'sortlen', 'filterlen']
 OBJ_MUT = ['setlit', 'setlit', 'delkey', 'setid', 'appendseq', 'appendfeat', 'appendlit', 'delidx', 'clear']
-OBJ_BIN = ['is', 'is', 'extend', 'setfts', 'setref', 'setitem', 'basketsetfts']
+OBJ_BIN = ['is', 'is', 'extend', 'setfts', 'setref', 'setitem', 'basketsetfts', 'getfts', 'getfts', 'getfts']
 OBJ_WANT = {'basketfts': ('Basket',), 'slice': ('Seq', 'Basket', 'Fts'), 'addlit': ('Seq',), 'filterlen': ('Basket',), 'reverse': ('Seq', 'Basket'),
             'lower': ('Seq', 'Basket'), 'upper': ('Seq', 'Basket'), 'complement': ('Seq', 'Basket'), 'rc': ('Seq', 'Basket'), 'iaddlit': ('Seq',), 'sortlen': ('Basket',),
             'setlit': ('Meta', 'Attr', 'dict'), 'delkey': ('Meta', 'Attr', 'dict'), 'setid': ('Seq',), 'appendseq': ('Basket',),
@@ -1045,7 +1050,7 @@ def gen_obj_case(rng, nops):
                 else:
                     f = rng.choice(OBJ_BIN)
                     wa, wb = {'is': (None, None), 'extend': (('Basket', 'Fts'), None), 'setfts': (('Seq',), ('Fts',)),
-                              'setref': (('Meta', 'Attr'), ('Attr', 'list', 'Fts', 'Meta')), 'setitem': (('Basket',), ('Seq',)), 'basketsetfts': (('Basket',), ('Fts',))}[f]
+                              'setref': (('Meta', 'Attr'), ('Attr', 'list', 'Fts', 'Meta')), 'setitem': (('Basket',), ('Seq',)), 'basketsetfts': (('Basket',), ('Fts',)), 'getfts': (('Seq',), None)}[f]
                     ga = _pick(rng, regs, wa, live)
                     if ga is None:
                         continue
@@ -1054,13 +1059,13 @@ def gen_obj_case(rng, nops):
                     gb = _pick(rng, regs, wb, live)
                     if gb is None:
                         continue
-                    if f == 'is' and rng.random() < 0.4:
+                    if (f == 'is' and rng.random() < 0.4) or f == 'getfts':
                         gb = ga
                     fn = [f] + ([rng.choice(OBJ_KEYS)] if f == 'setref' else [])
                     if f == 'setitem':
                         n = len(o_elems(ga[2]))
                         fn.append(rng.choice([0, -1, n - 1, n, 1]))
-                    op = ['bin', rng.choice([None] + list(range(NREGS))) if f in ('extend',) else None, fn, ga[0], ga[1], gb[0], gb[1]]
+                    op = ['bin', rng.choice([None] + list(range(NREGS))) if f in ('extend', 'getfts') else None, fn, ga[0], ga[1], gb[0], gb[1]]
                 ops.append(op)
                 try:
                     obj_do(regs, op)
@@ -1120,7 +1125,7 @@ def coq_oop(op):
         return '(OMut %s %s %s)' % (f, coq_nat(j), coq_path(q))
     if name == 'bin':
         _, d, fn, j, q, j2, q2 = op
-        f = {'is': 'BIs', 'extend': 'BExtend', 'setfts': 'BSetFts', 'basketsetfts': 'BBasketSetFts'}.get(fn[0]) or (
+        f = {'is': 'BIs', 'extend': 'BExtend', 'setfts': 'BSetFts', 'basketsetfts': 'BBasketSetFts', 'getfts': 'BGetFts'}.get(fn[0]) or (
             '(BSetItem %s)' % coq_z(fn[1]) if fn[0] == 'setitem' else '(BSetRef %s)' % coq_bs(fn[1]))
         return '(OBin %s %s %s %s %s %s)' % (coq_opt(d, coq_nat), f, coq_nat(j), coq_path(q), coq_nat(j2), coq_path(q2))
     raise RuntimeError(name)
@@ -1163,6 +1168,8 @@ def impl(case):
         return impl_eqpair(case)
     if case['kind'] == 'inplace':
         return impl_inplace(case)
+    if case['kind'] == 'strns':
+        return impl_strns(case)
     if case['kind'] == 'sweep':
         import random as _random
         return deep_edit_sweep(_random.Random(case['seed']), case['obj'], {})
@@ -1295,7 +1302,7 @@ RULE = ('kind attr: histories of 1-12 mapping operations (item/attribute set, ge
         'histories of 1-12 public operations (227 operations on BioSeq, BioBasket, FeatureList, Feature, Location, Meta) on real objects '
         'and their copies with deep structural snapshots, id()-reachability and write-footprint checks, plus re-wrap checks of every '
         'constructor / non-in-place operation; kind obj: programs of 2-12 steps over 4 variables holding real BioSeq / BioBasket / '
-        'FeatureList / Meta objects (31 public operations at random reachable receivers, grown while running so that receivers exist; '
+        'FeatureList / Meta objects (32 public operations at random reachable receivers, grown while running so that receivers exist; '
         'empty baskets / sequences / feature lists included) compared with the object-identity model on every step result and on the '
         'canonical object-graph dump; non-trivial = history that reaches a nested object or mixes operation kinds (attr), or '
         'contains copy / re-wrap / reference assignment (heap)')
@@ -1326,8 +1333,8 @@ LEVEL_TEXT = ('Machine-checked Coq theorems (60, all closed under the global con
               'the value-level operation on the deep read (setitem of a literal, delitem, list append, at key paths). '
               '(d) Object-identity level (C18_Obj.v): BioSeq / BioBasket / FeatureList / Feature / LocationTuple / Location / Meta / Attr / list '
               'as a heap of objects with identities; copy() = deepcopy is a GRAPH copy (internal sharing and cycles preserved); slicing / + / '
-              're-wrapping share meta.fts and nested metadata by design; every modelled public operation (31: constructors, copy, slicing of '
-              'sequences / baskets / feature lists, +, filter, basket.fts (getter and setter), reverse, complement, rc, str.lower/upper, +=, sort(len), filter(inplace), basket[i] = seq, item set / del on '
+              're-wrapping share meta.fts and nested metadata by design; every modelled public operation (32: constructors, copy, slicing of '
+              'sequences / baskets / feature lists, +, filter, basket.fts (getter and setter), the lazily creating seq.fts getter, reverse, complement, rc, str.lower/upper, +=, sort(len), filter(inplace), basket[i] = seq, item set / del on '
               'metadata with conversion, id setter, append of sequences / features / literals, del [i], clear, container +=, fts setter, '
               'assignment of an existing object, is) is a PROGRAM for a capability-checked interpreter, and the theorems are proved once for '
               'the interpreter: obj_interp_separation (any program keeps the two-colour invariant and touches no cell of the other colour), '
@@ -1365,12 +1372,13 @@ LEVEL_NOTE = ('Proved for the models only; the models are tied to /repo by testi
               'coordinates are carried but never transformed, LocationTuple and Location are immutable in the model (Location.start/stop '
               'edits re-sort on deepcopy: tested only), set operators (&, |, -, ^) compare by deep equality and are tested only, '
               ''
+              'Sequences built without features have NO fts item (as when read from FASTA): the lazily creating seq.fts getter is an operation of the model (a FRESH list per sequence); basket.fts on a basket with such a sequence would create the item inside a getter and is outside the modelled domain. '
               'seq.fts = x on a sequence whose metadata has no id item raises AttributeError AFTER assigning (setter reads self.id): outside the modelled domain. '
               'A disagreement counts as the open finding F20 only if one of the KEYS of the case is reserved (operation names such as copy / get / clear do not). '
               'TESTED ONLY (not modelled in Coq): rc(update_fts=True) / translate / match / find_orfs / set operators / Feature and Location '
               'edits -- 800/30000 random histories of 227 public operations (secondary operands that are sugar objects are snapshotted too) per '
               'run (subjects also read from GFF -- feature and location meta._gff -- and from SJSON, and EMPTY / one-element baskets, feature lists, sequences, metadata), 120/2000 exhaustive nested-edit sweeps (every reachable object of one side edited, both directions, depth up to 11), a 5160-case matrix of match/matchall/find_orfs/copy-chains over all reading-frame selections, 33 re-wrap checks, an 81-case matrix of mapping pairs differing only in None-valued keys through 14 equality forms, a 210-case matrix of in-place operators with tuple/generator/dict-view/iterator operands (identity, alias, meta, content), a '
-              '351-case matrix of mapping kinds x entry paths. Not proved: refinement for reference assignment / paths through list '
+              '351-case matrix of mapping kinds x entry paths, an 87-case matrix BioBasket.str.<m> x 0/1/2 sequences (the failing input behind C18_str_namespace_agrees). Not proved: refinement for reference assignment / paths through list '
               'indices; the heap analogue of the "Attr never holds a plain dict" invariant. '
               'Domain excludes reserved keys R = dir(Meta) + __dunder__ names: open finding F20 (keys such as items/update/copy shadow '
               'the mapping methods; __deepcopy__/__reduce_ex__/__getstate__ break copy(); __class__/__dict__ break attribute = key '
@@ -2750,6 +2758,44 @@ def inplace_matrix():
             for k in ('tuple', 'generator', 'dict_values', 'iter', 'list', 'same_type', 'set') for sd in (0, 1, 2)]
 
 
+STRNS_ARGS = {'center': (9, '-'), 'count': ('A',), 'removeprefix': ('A',), 'removesuffix': ('A',), 'endswith': ('A',), 'find': ('A',),
+              'index': ('A',), 'ljust': (9, 'N'), 'rjust': (9, 'N'), 'lstrip': ('A',), 'rstrip': ('A',), 'strip': ('A',),
+              'replace': ('A', 'G'), 'rfind': ('A',), 'rindex': ('A',), 'split': ('A',), 'rsplit': ('A',), 'startswith': ('A',),
+              'translate': ({65: 'T'},), 'maketrans': ('A', 'T')}
+
+
+def impl_strns(case):
+    """None, or why BioBasket.str.<m>() of a basket with n sequences is not the basket although BioSeq.str.<m>() works in place
+    (or the other way round).  The same observation is the regenerated Coq table G_c18_str (C18_str_namespace_agrees)."""
+    import warnings
+    from sugar import BioSeq, BioBasket
+    m, n = case['method'], case['n']
+    args = STRNS_ARGS.get(m, ())
+    with warnings.catch_warnings():
+        warnings.simplefilter('ignore')
+        s = BioSeq('ACGTA', id='a')
+        try:
+            inplace = getattr(s.str, m)(*args) is s
+        except Exception:
+            return None
+        b = BioBasket([BioSeq('ACGTA', id='a'), BioSeq('TTAGCA', id='b')][:n])
+        try:
+            rb = getattr(b.str, m)(*args)
+        except Exception as e:
+            return 'BioBasket.str.%s raised %s on a basket with %d sequences' % (m, type(e).__name__, n) if inplace else None
+    if inplace and rb is not b:
+        return ('in-place operation BioBasket.str.%s on a basket with %d sequences did not return the receiver (returned %s)'
+                % (m, n, type(rb).__name__))
+    if not inplace and rb is b:
+        return 'BioBasket.str.%s returns the basket although BioSeq.str.%s returns a value' % (m, m)
+    return None
+
+
+def strns_matrix():
+    from sugar.core.seq import _BioSeqStr
+    return [{'kind': 'strns', 'method': m, 'n': n} for m in sorted(x for x in dir(_BioSeqStr) if not x.startswith('_')) for n in (0, 1, 2)]
+
+
 F20_WITNESS = {'kind': 'f20', 'reserved_key': True, 'key': 'items'}
 
 
@@ -2810,7 +2856,8 @@ def extra_checks(rng, tier, cov):
                'noshrink': True, 'model': None, 'wf': True, 'evaluated': False}
         return
     for mat, name in ((pure_matrix(tier), 'pure_matrix_cases'), (mapkind_matrix(), 'mapkind_matrix_cases'),
-                      (eq_matrix(), 'eq_matrix_cases'), (inplace_matrix(), 'inplace_matrix_cases')):
+                      (eq_matrix(), 'eq_matrix_cases'), (inplace_matrix(), 'inplace_matrix_cases'),
+                      (strns_matrix(), 'strns_matrix_cases')):
         cov[name] = len(mat)
         for case in mat:
             why = F.jcanon(F.run_impl(impl, case))
